@@ -274,3 +274,27 @@ for kind in ('pn', 'pa'):
         po_jobs(kind, op, 'release', 'thorough', nsz=24, npb=3, timeout=3000, mem=24)
 for op in (4, 6, 9):
     po_jobs('pn', op, 'baseline', 'quick')
+
+# ---------------------------------------------------------------- real libstdc++ containers on std_allocator over two recording leaves
+CONT = {'vec': ('std::vector<long>', []), 'fwd': ('std::forward_list<long>', ['NODE_CONST=w_fwd_node_size_const']), 'lst': ('std::list<long>', ['NODE_CONST=w_lst_node_size_const'])}
+CONT_QUICK = [(0, 5), (0, 6), (1, 6), (0, 2), (1, 5), (0, 3), (0, 0), (1, 1)]
+CONT_BIG = [(0, 4), (1, 7), (4, 0), (7, 1), (4, 4), (7, 7), (4, 7), (7, 4)]      # copy assignment: needs far more memory
+def cont_job(kind, seq, steps, tier, timeout=900, mem=8):
+    code = sum(o * 8 ** i for i, o in enumerate(seq))
+    add('cont-%s-%s' % (kind, ''.join(map(str, seq))), ['C10'], 'cont', 'cont_step.c', config='release',
+        defines=['CONTK=%s' % kind, 'STEPS=%d' % steps, 'SEQ=%d' % code, 'HEAP_SIZE=1024', 'IR_LIST_MODELS', 'MAXB=2'] + CONT[kind][1], unwind=14, timeout=timeout, tier=tier, mem_gb=mem,
+        desc='%s with std_allocator<long, leaf>: operations %s on C1 (leaf A) / C2 (leaf A or B, symbolic), then copy-construct, move-construct, destroy all' % (CONT[kind][0], list(seq)),
+        bounds='real libstdc++ code; operation sequence is a constant of the query (0 push C1, 1 push C2, 2 pop C1, 3 clear C1, 4 C2=C1, 5 C2=move(C1), 6 swap, 7 C1=C2), element values and the leaf binding symbolic; std::list\'s four out-of-line primitives are 5-line models (rt.c)')
+for kind in CONT:
+    for seq in CONT_QUICK: cont_job(kind, seq, 2, 'quick')
+    for a in range(8):
+        for b in range(8):
+            if (a, b) not in CONT_QUICK: cont_job(kind, (a, b), 2, 'thorough', 3000, 24 if (a, b) in CONT_BIG or 4 in (a, b) or 7 in (a, b) else 8)
+    for seq in ((0, 0, 4), (0, 1, 6), (0, 5, 0), (1, 7, 2), (0, 0, 5), (1, 6, 3)): cont_job(kind, seq, 3, 'thorough', 3000, 24)
+
+# ---------------------------------------------------------------- C19: bucket selection through the real free_list_array
+for fla, lg, mx, minel, hs, tier in (('node_log2', 1, 4096, 8, 512, 'quick'), ('node_id', 0, 24, 8, 512, 'quick'), ('ord_log2', 1, 1024, 8, 512, 'thorough'),
+                                     ('ord_id', 0, 16, 8, 512, 'thorough'), ('small_log2', 1, 64, 1, 512, 'thorough'), ('small_id', 0, 6, 1, 512, 'thorough')):
+    add('c19-buckets-%s' % fla, ['C19'], 'arith', 'c19_buckets.c', config='release', defines=['FLA=%s' % fla, 'MAXN=%d' % mx, 'MINEL=%d' % minel, 'HEAP_SIZE=%d' % hs] + (['LOG2'] if lg else []),
+        unwind=30, timeout=900 if tier == 'quick' else 3000, tier=tier, mem_gb=8 if tier == 'quick' else 24,
+        desc='free_list_array<%s>: constructor for a symbolic max node size, get(size) for every size 1..max' % fla, bounds='max node size %d..%d, every size 1..max' % (minel, mx))
